@@ -34,6 +34,29 @@ def strip_generics(s):
     return r.replace('::::', '::').rstrip(':')
 
 
+def keyname(name):
+    """instance name with turbofish generic arguments removed (`a::B::<T>::f` -> `a::B::f`); qualified `<T as Trait>`
+    segments are kept, so different impls of one trait method keep different keys"""
+    out = []; i = 0; n = len(name)
+    while i < n:
+        if name.startswith("::<", i):
+            depth = 0; j = i + 2
+            while j < n:
+                if name[j] == "<":
+                    depth += 1
+                elif name[j] == ">" and name[j - 1] != "-":
+                    depth -= 1
+                    if depth == 0:
+                        break
+                j += 1
+            i = j + 1
+            continue
+        out.append(name[i]); i += 1
+    r = "".join(out)
+    r = r.replace("libc::unix::linux_like::linux::gnu::b64::x86_64::", "libc::")
+    return r
+
+
 class Inst:
     __slots__ = ("id", "name", "defp", "crate", "kind", "local", "args", "span", "body", "raw",
                  "symbol", "drop_ty", "impls", "dyn", "parent", "_succ", "_pred", "_edges")
